@@ -28,7 +28,7 @@ func stub_c14g_path(headPath string, index int, maxIndex int) string {
 	return headPath + "." + string([]byte{'0' + byte(index/100%10), '0' + byte(index/10%10), '0' + byte(index%10)})
 }
 
-//verif:opt unwind=40 budget_s=600 split=8
+//verif:opt unwind=40 budget_s=600 thorough.budget_s=3000 split=8 thorough.split=24
 func H_C14_group_files_hold_what_was_written_in_order() {
 	dir := "/verif-model-wal"
 	if !verifSymbolic() {
@@ -43,7 +43,11 @@ func H_C14_group_files_hold_what_was_written_in_order() {
 	g := &Group{ID: "g", Head: head, headBuf: bufio.NewWriterSize(head, 8), Dir: dir}
 	var want []byte
 	rotations := 0
-	for step := 0; step < 4; step++ {
+	steps := 4
+	if verifThorough() {
+		steps = 5
+	}
+	for step := 0; step < steps; step++ {
 		switch verifCase(3) {
 		case 0: // a buffered write of 1..10 bytes
 			p := verifNondetBytes(1 + verifCase(10))
